@@ -35,6 +35,7 @@ DEFS = [
     ('basic::B7', '', range(0, 3), (0,), ['#?', '#abcdefghi?', '#abcdefghij?', '#abcdefghijk?', '#abcdefghijklmnop?', '#abcdefghijklmnopqr?', '#abcdefghijklmnopqrstuvwx?', 'ab#cdefghijkl?', '#abcdefghij\\n?', '?', '#??'], (0, 2)),
     ('basic::B8', '', range(0, 3), (0,), ['\x01?', '\x01\x02?', '\x00\x20?', '\xff\xfe?', '\x80?', '\x01\x02\x03\x04\x05\x06\x07\x08\x09?', 'a?', '\xff\xfe\xfd\xfc\xfb\xfa\xf9\xf8\xf7\xf6?'], (0,)),
     ('basic::E1', '', range(0, 6), (0, 1), ['ab?', 'abc?', 'abcd?', 'x1?', 'x12?', 'x?', 'abcd??', 'x1y?'], (0, 1)),
+    ('basic::E3', '', range(0, 4), (0, 1), ['i?', 'io?', 'i7?', 'ix?', 'io7?', '?', 'i??', '7i?'], (0, 1)),
     ('skip::S1', ' \t', range(0, 2), (0,), [' a?', 'ab ?', 'a?', 'a ?', ' ?', '  ?', 'a \t?', '1 ? ', ' =?', 'a??', ' ??', 'ab=?1', '\t? a'], (0, 1)),
     ('skip::S3', ' ', range(0, 2), (0,), [' \r?', 'a \r?', ' \r\n?', '  \r?', 'a  ?', ' ?', '\r?', ' \rb?', ' \r?b'], (0, 1)),
     ('skip::S2', '\n-', range(0, 3), (0,), ['-?', '--?', '\n?', '---?', 'a-?', '--\n?', '-??', '->?'], (0, 1)),
@@ -141,6 +142,7 @@ PART = [  # (T, contexts, start)  -- every split point k < N
     ('basic::B1', ['i?', 'if?', 'ifx?', '1?', '1.?', '1.5?', '??', 'a1?'], 0),
     ('basic::B2', ['a?', 'ab?', 'abc?', 'aa?', '??', '???'], 0),
     ('basic::E1', ['ab?', 'abc?', 'abcd?', 'x1?', 'x?y'], 0),
+    ('basic::E3', ['i?', 'io?', 'io7?'], 0),
     ('skip::S2', ['-?', '--?', '-\n?', '->?'], 0),
     ('utf8::U1', ['€?', '€€?', 'é?', 'a?'], 0),
 ]
